@@ -717,6 +717,11 @@ class Sym:
                         return t[3][0]
             return None
         a, b = ends(first, ('begin', 'cbegin')), ends(last, ('end', 'cend'))
+        # [&a[0], &a[N]): the whole of an array (std::begin / std::end of an array evaluate to this)
+        if a is None and isinstance(first, tuple) and isinstance(last, tuple) and first[:1] == ('addr',) and last[:1] == ('addr',) \
+                and isinstance(first[1], tuple) and isinstance(last[1], tuple) and first[1][:1] == ('index',) and last[1][:1] == ('index',) \
+                and first[1][1] == last[1][1] and first[1][2][:2] == ('k', 0) and last[1][2][0] == 'k' and last[1][2][1] > 0:
+            return first[1][1]
         if a is None and isinstance(first, tuple) and first and first[0] == 'addr' and isinstance(first[1], tuple) and first[1][0] == 'fld' \
                 and isinstance(last, tuple) and len(last) == 4 and last[:3] == ('op', '+', first) and last[3][:2] == ('k', 1):
             # [&x.item, &x.item + 1): the whole of a one-element store x (its begin()/end() were evaluated inline)
